@@ -79,6 +79,15 @@ def substituted(atoms, bonds, rng, nsub=2):
                 hs.append((h, c))
     rng.shuffle(hs)
     used, label = set(), []
+    taken = set(a["name"] for a in atoms)
+
+    def fresh(stem, n):
+        nm = f"{stem}{n}"
+        while nm in taken:
+            n += 1
+            nm = f"{stem}{n}"
+        taken.add(nm)
+        return nm
     for h, c in hs[:nsub]:
         if h in used:
             continue
@@ -90,11 +99,12 @@ def substituted(atoms, bonds, rng, nsub=2):
         ids = {0: c}
         for k, (stem, typ) in enumerate(ats, start=1):
             if k == 1:
-                byid[h].update(name=f"{stem}{h}", type=typ)          # the hydrogen becomes the first substituent atom
+                taken.discard(byid[h]["name"])
+                byid[h].update(name=fresh(stem, h), type=typ)        # the hydrogen becomes the first substituent atom
                 ids[1] = h
             else:
                 nid = max(a["id"] for a in atoms) + 1
-                atoms.append({"id": nid, "name": f"{stem}{nid}", "xyz": list(base + np.array([0.9 * k, 0.35 * k, -0.2 * k])), "type": typ, "rest": []})
+                atoms.append({"id": nid, "name": fresh(stem, nid), "xyz": list(base + np.array([0.9 * k, 0.35 * k, -0.2 * k])), "type": typ, "rest": []})
                 byid[nid] = atoms[-1]
                 ids[k] = nid
         for i, j, o in bds:
